@@ -79,6 +79,8 @@ pub struct CaseStats {
     pub then_programs: usize,
     pub fu_stuck_seen: bool,
     pub holds_checked: usize,
+    /// steps after which a lagging host had left outputs queued inside the command
+    pub lagged_steps: usize,
 }
 
 pub struct CaseOutcome {
@@ -383,6 +385,42 @@ fn maybe_batch(first: Action, models: &[Model], rng: &mut Rng, cfg: &RunCfg, bat
     Action::Batch(vec![a, b])
 }
 
+/// Outputs of a lagging host are compared cumulatively: what the model predicted and what the
+/// host reported since the host last consumed everything.
+#[derive(Default)]
+struct Carry {
+    pred_effects: Vec<EffObs>,
+    pred_events: Vec<(usize, EvObs)>,
+    obs_effects: Vec<EffObs>,
+    obs_events: Vec<EvObs>,
+    anomalies: Vec<String>,
+}
+
+/// Returns the (cumulative) prediction and observation to compare now, or None while the
+/// host is still behind.
+fn settle_partial(carry: &mut Option<Carry>, pred: &Pred, mut obs: Obs) -> Option<(Pred, Obs)> {
+    if carry.is_none() && !obs.partial {
+        return Some((pred.clone(), obs));
+    }
+    let mut c = carry.take().unwrap_or_default();
+    c.pred_effects.extend(pred.effects.iter().cloned());
+    c.pred_events.extend(pred.events.iter().cloned());
+    c.obs_effects.append(&mut obs.effects);
+    c.obs_events.append(&mut obs.events);
+    c.anomalies.append(&mut obs.anomalies);
+    if obs.partial {
+        *carry = Some(c);
+        return None;
+    }
+    let mut p = pred.clone();
+    p.effects = c.pred_effects;
+    p.events = c.pred_events;
+    obs.effects = c.obs_effects;
+    obs.events = c.obs_events;
+    obs.anomalies = c.anomalies;
+    Some((p, obs))
+}
+
 fn with_slot<T>(slot: usize, f: impl FnOnce() -> T) -> T {
     ops::set_slot(slot as u32);
     f()
@@ -421,6 +459,8 @@ pub fn run_case(
     let mut stats = CaseStats::default();
     let mut actions: Vec<Action> = vec![];
     let mut dead: Vec<bool> = vec![false; hosts.len()];
+    let mut carry: Vec<Option<Carry>> = (0..hosts.len()).map(|_| None).collect();
+    let mut last_done: Vec<Option<Tri>> = vec![None; modes.len()];
     let caps: Vec<Caps> = hosts.iter().map(|h| h.host.caps()).collect();
     let all = |f: fn(&Caps) -> bool| caps.iter().all(f);
     let eff_cfg = RunCfg {
@@ -477,11 +517,14 @@ pub fn run_case(
                 slot.host.start(&p)
             }
         });
-        let f = compare(&preds[slot.model], &obs, &caps[i], slot.host.name(), 0);
-        if !f.is_empty() {
-            dead[i] = true;
+        last_done[slot.model] = preds[slot.model].done;
+        if let Some((p, o)) = settle_partial(&mut carry[i], &preds[slot.model], obs) {
+            let f = compare(&p, &o, &caps[i], slot.host.name(), 0);
+            if !f.is_empty() {
+                dead[i] = true;
+            }
+            findings.extend(f);
         }
-        findings.extend(f);
     }
     stats.effects += preds[0].effects.len();
     stats.events += preds[0].events.len();
@@ -604,11 +647,37 @@ pub fn run_case(
             let model = &models[slot.model];
             let pred = &preds[slot.model];
             let obs = with_slot(i, || host.act(&action));
-            let f = compare(pred, &obs, &caps[i], host.name(), step);
-            if !f.is_empty() {
-                dead[i] = true;
+            // the verdict on the resolution itself is known at once, also for a lagging host
+            let partial = obs.partial;
+            if partial {
+                let verdict_only = Obs {
+                    resolve_ok: obs.resolve_ok,
+                    batch_resolve_ok: obs.batch_resolve_ok.clone(),
+                    ..Obs::default()
+                };
+                let p = Pred {
+                    resolve: pred.resolve,
+                    batch_resolve: pred.batch_resolve.clone(),
+                    ..Pred::default()
+                };
+                let f = compare(&p, &verdict_only, &caps[i], host.name(), step);
+                if !f.is_empty() {
+                    dead[i] = true;
+                }
+                findings.extend(f);
             }
-            findings.extend(f);
+            last_done[slot.model] = pred.done;
+            if let Some((p, o)) = settle_partial(&mut carry[i], pred, obs) {
+                let f = compare(&p, &o, &caps[i], host.name(), step);
+                if !f.is_empty() {
+                    dead[i] = true;
+                }
+                findings.extend(f);
+            }
+            if partial {
+                stats.lagged_steps += 1;
+                continue;
+            }
             // drop counters: everything the model has released must have been dropped
             for (counter, (created, dropped)) in &model.holds {
                 let (rc, rd) = with_slot(i, || ops::hold_state(*counter));
@@ -628,6 +697,29 @@ pub fn run_case(
         actions.push(action);
     }
     stats.steps = step;
+    // lagging hosts consume what is still queued; nothing may have been lost
+    for (i, slot) in hosts.iter_mut().enumerate() {
+        if dead[i] || carry[i].is_none() {
+            continue;
+        }
+        let host = &mut slot.host;
+        let obs = with_slot(i, || host.flush());
+        let p = Pred {
+            done: last_done[slot.model],
+            ..Pred::default()
+        };
+        if let Some((p, o)) = settle_partial(&mut carry[i], &p, obs) {
+            findings.extend(compare(&p, &o, &caps[i], host.name(), step));
+        } else {
+            findings.push(Finding {
+                signature: format!("anomaly/flush-left-outputs@{}", host.name()),
+                what: "harness: flush did not consume everything".into(),
+                host: host.name().to_string(),
+                step,
+                detail: json!({}),
+            });
+        }
+    }
     for (i, slot) in hosts.iter_mut().enumerate() {
         let host = &mut slot.host;
         for a in with_slot(i, || host.finish()) {
